@@ -62,8 +62,9 @@ type world struct {
 	hookErr    error // result of the identity-hook entry point for the last validation with hook "none"
 	hookRan    bool
 	links      map[string]*matLink
-	render     int             // how the abstract command letters are written (cmdRenderings)
-	keyless    map[string]bool // principals written as did:key identifiers that parse but hold no usable key
+	render     int               // how the abstract command letters are written (cmdRenderings)
+	keyless    map[string]bool   // principals written as did:key identifiers that parse but hold no usable key
+	lookalike  map[string]string // principals whose did:key text is another principal's with the case of one letter changed
 }
 
 // keylessDID: a did:key the parser accepts (known multicodec) whose key material cannot be a key (an Ed25519 key one
@@ -77,6 +78,32 @@ func keylessDID(name string) (did.DID, error) {
 		return did.Undef, err
 	}
 	return did.Parse("did:key:" + text)
+}
+
+// lookalikeDID: another did:key (base58btc is case-sensitive: another identifier, another principal) whose text differs from
+// the given one only in the case of one letter near its end.
+func lookalikeDID(d did.DID) (did.DID, error) {
+	text := d.String()
+	for i := len(text) - 1; i > len("did:key:z")+4; i-- {
+		c := text[i]
+		var f byte
+		switch {
+		case c >= 'a' && c <= 'z':
+			f = c - 'a' + 'A'
+		case c >= 'A' && c <= 'Z':
+			f = c - 'A' + 'a'
+		default:
+			continue
+		}
+		if strings.IndexByte("0OIl", f) >= 0 {
+			continue // not in the base58btc alphabet
+		}
+		o, err := did.Parse(text[:i] + string(f) + text[i+1:])
+		if err == nil && o != d && o.String() != text && strings.EqualFold(o.String(), text) {
+			return o, nil
+		}
+	}
+	return did.Undef, fmt.Errorf("no lookalike for %s", text)
 }
 
 // cmdRenderings: the specification's commands are sequences of abstract characters; the rules (segment-wise
@@ -135,6 +162,19 @@ func newWorld(seed int64, algs []string) *world {
 
 func (w *world) principal(name string) (*principal, error) {
 	if p, ok := w.principals[name]; ok {
+		return p, nil
+	}
+	if base, ok := w.lookalike[name]; ok {
+		b, err := w.principal(base)
+		if err != nil {
+			return nil, err
+		}
+		id, err := lookalikeDID(b.id)
+		if err != nil {
+			return nil, err
+		}
+		p := &principal{name: name, id: id, alg: "keyless"}
+		w.principals[name] = p
 		return p, nil
 	}
 	if w.keyless[name] {
@@ -704,12 +744,19 @@ func chainReplay(prop string) replayFn {
 		ws[3].algs = fastAlgs
 		// another world writes two of the principals as identifiers that hold no usable key
 		ws[1].keyless = map[string]bool{"B": true, "M": true, "X": true, "C": true}
+		// and one has principals whose identifiers differ from another principal's only in the case of a letter
+		ws[5].lookalike = map[string]string{"M": "A", "C": "B", "X": "S"}
 		if bad := catalogueSelfCheck(); len(bad) > 0 && (prop == "C03" || prop == "C05") {
 			for _, b := range bad {
 				rep.violation(map[string]any{"catalogue": b}, "catalogue statement has its stated acceptance set", b,
 					"the real matcher disagrees with the acceptance set of a catalogue statement")
 			}
 			return nil
+		}
+		if prop == "C02" {
+			if err := invalidCommandLinks(rep, ws[0]); err != nil {
+				return err
+			}
 		}
 		if prop == "C05" || prop == "C04" {
 			if err := freshBounds(rep, ws[0], prop); err != nil {
@@ -819,6 +866,59 @@ func chainReplay(prop string) replayFn {
 // freshBounds: delegations handed to the loader as their issuer built them a moment ago (bounds with a sub-second part): a
 // not-before of "now" has passed by the time of the check (C05: allowed), an expiration a few hundred milliseconds ahead
 // has not (C05: allowed) - and one a few hundred milliseconds back has (C04: refused).
+// invalidCommandLinks: a delegation whose command is not a command at all (the empty text, no leading slash, a trailing slash,
+// an upper-case letter) covers nothing: read from the wire it is refused, and if a decoder hands it out all the same, no
+// invocation is allowed through it.
+func invalidCommandLinks(rep *Report, w *world) error {
+	s, err := w.principal("S")
+	if err != nil {
+		return err
+	}
+	a, err := w.principal("A")
+	if err != nil {
+		return err
+	}
+	// (every text of the list lacks the leading slash, ends with a slash or holds an upper-case letter: judged here, not by the parser)
+	for _, bad := range []string{"", "a", "a/b", "/a/", "/A", "//", " /a", "\x00"} {
+		root, err := delegation.Root(s.id, a.id, command.Command(bad), policy.Policy{})
+		if err != nil {
+			continue // refused at construction
+		}
+		sealed, rid, err := root.ToSealed(s.priv)
+		if err != nil {
+			continue
+		}
+		rep.Evaluations++
+		rep.nontrivial("invalid-command/" + bad)
+		cs := map[string]any{"delegation_command": bad}
+		dec, _, err := delegation.FromSealed(sealed)
+		if err != nil {
+			continue // refused on the wire (the constructors do not validate commands; an object that was never read is not a token a verifier meets)
+		}
+		store := mapLoader{rid: dec}
+		for _, invoked := range []string{"/", "/a", "/a/b", "/b"} {
+			inv, err := invocation.New(a.id, s.id, command.Command(invoked), []cid.Cid{rid})
+			if err != nil {
+				return err
+			}
+			verr := func() (err error) {
+				defer func() {
+					if x := recover(); x != nil {
+						err = fmt.Errorf("panic: %v", x)
+					}
+				}()
+				return inv.ExecutionAllowed(store)
+			}()
+			cs["invoked"] = invoked
+			if verr == nil {
+				rep.violation(cs, "refused", "allowed", "a delegation whose command is not a valid command authorized an invocation")
+				break
+			}
+		}
+	}
+	return nil
+}
+
 func freshBounds(rep *Report, w *world, prop string) error {
 	s, err := w.principal("S")
 	if err != nil {
@@ -901,6 +1001,15 @@ type evInv struct {
 	Hook string   `json:"hook"`
 }
 
+func indexOf(xs []string, x string) int {
+	for i, y := range xs {
+		if y == x {
+			return i
+		}
+	}
+	return 0
+}
+
 func chars(s string) []string {
 	out := []string{}
 	for _, r := range s {
@@ -956,6 +1065,16 @@ func init() {
 			if rng.Intn(40) == 0 {
 				ln = 7 + rng.Intn(14) // the rules put no bound on the length of a chain
 			}
+			// ... nor on the length of a proof list: a conforming chain of 30..34 links (or 62..66), followed by proofs that do not
+			// belong to it (every proof listed is checked, to the end of the list)
+			tail := 0
+			if rng.Intn(50) == 0 {
+				ln = []int{30, 62}[rng.Intn(2)] + rng.Intn(5)
+				tail = rng.Intn(4)
+			}
+			if forced := [][2]int{{8, 1}, {16, 2}, {32, 1}, {32, 3}, {64, 1}, {128, 2}, {31, 1}, {33, 1}, {32, 0}, {100, 0}}; it < len(forced) {
+				ln, tail = forced[it][0], forced[it][1]
+			}
 			sub := names[rng.Intn(len(names))]
 			arg := rng.Intn(3)
 			// conforming chain from the root (subject) down to the invoker
@@ -1006,7 +1125,23 @@ func init() {
 				inv.Hook = []string{"id", "c0", "c1", "c2", "empty"}[rng.Intn(5)]
 			}
 			// deviations
-			for d := rng.Intn(3); d > 0 && ln > 0; d-- {
+			ndev := rng.Intn(3)
+			if tail > 0 {
+				ndev = 0
+				for k := 0; k < tail; k++ {
+					switch rng.Intn(3) {
+					case 0:
+						links = append(links, absLink{Missing: true})
+					case 1:
+						other := names[(rng.Intn(len(names)-1)+1+indexOf(names, sub))%len(names)]
+						links = append(links, absLink{Iss: other, Aud: names[rng.Intn(len(names))], Sub: other, Cmd: []string{"/"}, Pol: [][]bool{}, Nbf: -1, Exp: -1})
+					default:
+						links = append(links, absLink{Iss: names[rng.Intn(len(names))], Aud: sub, Sub: sub, Cmd: []string{"/"}, Pol: [][]bool{}, Nbf: -1, Exp: -1})
+					}
+				}
+				ln = len(links)
+			}
+			for d := ndev; d > 0 && ln > 0; d-- {
 				i := rng.Intn(ln)
 				switch rng.Intn(13) {
 				case 12:
